@@ -8,6 +8,10 @@ import (
 type pendingMsg struct {
 	msgChan   chan Message
 	timestamp time.Time
+	// waiting is set while a caller is blocked on msgChan: such an entry must
+	// never be discarded, or the caller's reply ends up in a fresh channel
+	// that nobody reads.
+	waiting bool
 }
 
 type pendingItem struct {
@@ -35,10 +39,16 @@ func pendingOldest(pending map[string]pendingMsg, num int) pendingQueue {
 	}
 	queue := make(pendingQueue, 0, len(pending))
 	for key, p := range pending {
+		if p.waiting {
+			continue
+		}
 		queue = append(queue, pendingItem{
 			key, p.timestamp,
 		})
 	}
 	sort.Sort(queue)
+	if num > len(queue) {
+		num = len(queue)
+	}
 	return queue[:num]
 }
